@@ -174,7 +174,7 @@ struct Stats { uint64_t &states = shm->states, &transitions = shm->transitions, 
 std::vector<Op> alphabet(int maxlen) {
     std::vector<Op> a;
     for (int k : {CC, MC, CAB, MAB, SW, SELF, CAE}) a.push_back(Op{k, 0});
-    for (int n = 0; n <= maxlen; n++) { a.push_back(Op{RS, n}); a.push_back(Op{RV, n}); }
+    for (int n = 0; n <= maxlen + 1; n++) { a.push_back(Op{RS, n}); a.push_back(Op{RV, n}); }      // one beyond the largest constructed length: growth past an adopted block
     for (int i = 0; i < maxlen; i++) a.push_back(Op{WR, i});
     return a;
 }
